@@ -102,15 +102,16 @@ def steps():
     add("inner_join(u,<)", lambda x, c: x >> pdt.inner_join(c.u, (x.a < c.u.a) & (x.h < c.u.h)), effect="destroy", needs=("a", "h"), breaks=True)
     def _un(x, c, r):
         names = [col.name for col in x]
-        if not all(n in r for n in names) or any(x[n].dtype() != r[n].dtype() for n in names):
+        if not all(n in r for n in names):
             return None
+        # operands whose column types differ are either refused by both backends (no common type) or accepted by both
         return x >> pdt.union(r >> pdt.select(*[r[n] for n in reversed(names)]))
 
     add("union(t2)", lambda x, c: _un(x, c, c.t2), effect="destroy", needs=(), breaks=True)
     def _un_sub(x, c):
         names = [col.name for col in x]
         r = c.t2
-        if "h" not in r or not all(n in r for n in names) or any(x[n].dtype() != r[n].dtype() for n in names):
+        if "h" not in r or not all(n in r for n in names):
             return None
         sub = r >> pdt.arrange(r.h) >> pdt.slice_head(4, offset=1) >> pdt.alias("s2")
         return x >> pdt.union(sub >> pdt.filter(sub.h > 1) >> pdt.select(*[sub[n] for n in reversed(names)]))
